@@ -17,9 +17,13 @@ package parsers
 //@   ensures result == c.value
 //@   assigns nothing
 //@   nopanic
+// A13 (ghost, assumed): okNode marks the nodes of a token tree built by the parser; the sub-tokens of such a node are
+// nodes again and none is nil (the parser stores only the non-nil lists performSyntaxAnalysisForSection returns)
+//@ ufun okNode(t *MustacheToken) bool
 //@ func (c *MustacheToken) Tokens
 //@   requires c != nil
 //@   ensures result == c.tokens
+//@   ensures[ghostdef] okNode(c) ==> (forall i int :: 0 <= i && i < len(result) ==> result[i] != nil && okNode(result[i]))
 //@   assigns nothing
 //@   nopanic
 //@ func (c *MustacheToken) SetTokens
@@ -110,3 +114,64 @@ package parsers
 //@     invariant forall i int :: 0 <= i && i < len(result) ==> result[i] != nil
 //@     invariant fresh(result)
 //@     decreases len(c.initialTokens) - c.currentTokenIndex
+//
+// ---- lexical analysis, variable lookup, the parse entry points (C03: a result or an error, never a panic) -----------
+//@ pred mFresh(c *MustacheParser) = c != nil && arr(c.initialTokens) != arr(c.originalTokens) && arr(c.resultTokens) != arr(c.initialTokens) &&
+//@     arr(c.resultTokens) != arr(c.originalTokens)
+//@ func (c *MustacheParser) Clear
+//@   requires c != nil
+//@   ensures[C03] len(c.originalTokens) == 0 && len(c.initialTokens) == 0 && len(c.resultTokens) == 0 && len(c.variableNames) == 0 && c.currentTokenIndex == 0
+//@   ensures[C03] fresh(c.originalTokens) && fresh(c.initialTokens) && fresh(c.resultTokens) && mFresh(c)
+//@   assigns c.template, c.originalTokens, c.initialTokens, c.resultTokens, c.currentTokenIndex, c.variableNames
+//@   nopanic
+//
+//@ func (c *MustacheParser) completeLexicalAnalysis
+//@   requires mFresh(c) && len(c.initialTokens) == 0 && (forall i int :: 0 <= i && i < len(c.originalTokens) ==> c.originalTokens[i] != nil && allocated(c.originalTokens[i]))
+//@   ensures[C03] mFresh(c) && c.currentTokenIndex == old(c.currentTokenIndex) && c.resultTokens == old(c.resultTokens)
+//@   ensures[C03] forall i int :: 0 <= i && i < len(c.initialTokens) ==> c.initialTokens[i] != nil && allocated(c.initialTokens[i])
+//@   assigns c.initialTokens, c.initialTokens[*]
+//@   nopanic
+//@   loop 0
+//@     invariant -1 <= rangeindex && rangeindex < len(c.originalTokens) && mFresh(c)
+//@     invariant c.originalTokens == old(c.originalTokens) && elems(c.originalTokens) == old(elems(c.originalTokens))
+//@     invariant arr(c.initialTokens) == old(arr(c.initialTokens)) || fresh(c.initialTokens)
+//@     invariant forall i int :: 0 <= i && i < len(c.initialTokens) ==> c.initialTokens[i] != nil && allocated(c.initialTokens[i])
+//@     decreases len(c.originalTokens) - rangeindex
+//
+//@ func (c *MustacheParser) lookupVariables
+//@   requires c != nil && (forall i int :: 0 <= i && i < len(c.initialTokens) ==> c.initialTokens[i] != nil)
+//@   assigns c.variableNames, c.variableNames[*]
+//@   nopanic
+//@   loop 0
+//@     invariant -1 <= rangeindex && rangeindex < len(c.initialTokens)
+//@     invariant c.initialTokens == old(c.initialTokens) && elems(c.initialTokens) == old(elems(c.initialTokens))
+//@     invariant fresh(c.variableNames)
+//@     decreases len(c.initialTokens) - rangeindex
+//@   loop 1
+//@     invariant -1 <= rangeindex && rangeindex < len(c.variableNames)
+//@     decreases len(c.variableNames) - rangeindex
+//
+// "rejected with an error": parsing ends with every classified token consumed, or with an error
+//@ func (c *MustacheParser) performParsing
+//@   requires mFresh(c) && c.currentTokenIndex == 0 && len(c.initialTokens) == 0 &&
+//@       (forall i int :: 0 <= i && i < len(c.originalTokens) ==> c.originalTokens[i] != nil && allocated(c.originalTokens[i]))
+//@   ensures[C03,C10] result == nil ==> c.currentTokenIndex == len(c.initialTokens)
+//@   nopanic
+//
+//@ func (c *MustacheParser) tokenizeMustache
+//@   requires c != nil && c.tokenizer != nil
+//@   ensures[C03] fresh(result) && (forall i int :: 0 <= i && i < len(result) ==> result[i] != nil && allocated(result[i]))
+//@   ensures[C03] c.initialTokens == old(c.initialTokens) && c.resultTokens == old(c.resultTokens) && c.currentTokenIndex == old(c.currentTokenIndex)
+//@   assigns any(tokenizers.AbstractTokenizer).Scanner, any(tokenizers.AbstractTokenizer).NextTokenValue, any(tokenizers.AbstractTokenizer).LastTokenType,
+//@       any(tokenizers.AbstractTokenizer).skipWhitespaces, any(tokenizers.AbstractTokenizer).skipComments, any(tokenizers.AbstractTokenizer).skipEof,
+//@       any(tokenizers.AbstractTokenizer).decodeStrings
+//@   nopanic
+//
+//@ func (c *MustacheParser) ParseString
+//@   tags C03
+//@   requires c != nil && c.tokenizer != nil
+//@   nopanic
+//@ func (c *MustacheParser) SetTemplate
+//@   tags C03
+//@   requires c != nil && c.tokenizer != nil
+//@   nopanic
